@@ -45,7 +45,7 @@ EVENT_SCHEDULES = [
     {'ping__interval': '150', 'scte35__interval': '150'},           # ~3 events per 4 s segment
     {'ping__version': '1', 'scte35__version': '1', 'ping__interval': '400'},
 ]
-STREAMS = ('bbb', 'tears', 'synirr', 'synoff', 'synnot', 'synenc', 'synmk', 'syndef', 'syntrk')
+STREAMS = ('bbb', 'tears', 'synirr', 'synoff', 'synnot', 'synenc', 'synmk', 'syndef', 'syntrk', 'synzero')
 
 
 def vectors(tier):
